@@ -70,7 +70,38 @@ def gen_case(rng, tier):
                 cur = (len(R.ref_positions(i, cur[0])), len(R.ref_positions(j, cur[1])))
         except R.RefErr:
             break
+    # "history" probes: operations executed on the current container BEFORE a step whose results are thrown
+    # away (a column selection, a row selection, dense padding, a self-concatenation).  A pure container is
+    # unaffected; a stale cache carried from a container to the containers derived from it is not.
+    if rng.chance(0.45):
+        for st in prog:
+            if rng.chance(0.6):
+                st["probes"] = [rng.pick(["col0", "collist", "row0", "rowlist", "dense", "cat1", "cat0", "cell"])
+                                for _ in range(rng.randint(1, 2))]
     return {"kind": kind, "dtype": dtype, "cells": cells, "prog": prog}
+
+
+def run_probe(t, name):
+    """discarded operations on t; any outcome (incl. a raise on an empty container) is ignored"""
+    try:
+        if name == "col0":
+            t[:, 0]
+        elif name == "collist":
+            t[:, list(range(t.num_cols))[::-1]]
+        elif name == "row0":
+            t[0]
+        elif name == "rowlist":
+            t[list(range(t.num_rows))[::-1]]
+        elif name == "dense" and hasattr(t, "to_dense"):
+            t.to_dense(fill_value=0)
+        elif name == "cat1":
+            type(t).cat([t, t], dim=1)
+        elif name == "cat0":
+            type(t).cat([t, t], dim=0)
+        elif name == "cell" and t.num_rows and t.num_cols:
+            t[0, 0]
+    except Exception:
+        pass
 
 
 def exhaustive_single_ops(tier):
@@ -120,6 +151,8 @@ def run(case):
     t = R.build(case["kind"], case["dtype"], case["cells"])
     steps = []
     for st in case["prog"]:
+        for pb in st.get("probes", []):
+            run_probe(t, pb)
         snap = R.snapshot(t)
         try:
             r = apply_step(t, st)
@@ -220,6 +253,11 @@ def oracle(case, obs):
 
 def shrink(case):
     prog = case["prog"]
+    if any(st.get("probes") for st in prog):
+        yield dict(case, prog=[{k: v for k, v in st.items() if k != "probes"} for st in prog])
+        for k, st in enumerate(prog):
+            if st.get("probes"):
+                yield dict(case, prog=prog[:k] + [{kk: v for kk, v in st.items() if kk != "probes"}] + prog[k + 1:])
     # drop a prefix step if it is not needed, shorten the program
     for k in range(len(prog)):
         yield dict(case, prog=prog[:k] + prog[k + 1:])
@@ -257,6 +295,8 @@ def stats(cases, obss):
             k = step_kind(st)
             d["index_kinds"][k] = d["index_kinds"].get(k, 0) + 1
         steps = o.get("steps", [])
+        if any(st.get("probes") for st in c["prog"]):
+            d["with_history_probes"] = d.get("with_history_probes", 0) + 1
         if any(not s["ok"] for s in steps):
             d["error_cases"] += 1
         if any(s["ok"] and "nr" in s and s["nr"] * s["nc"] == 0 for s in steps[:-1]):
@@ -313,6 +353,8 @@ def sanity(cases, obss):
         probs.append("pair access never drawn")
     if d["through_empty"] == 0:
         probs.append("no program passes through an empty result")
+    if d.get("with_history_probes", 0) == 0:
+        probs.append("no program interleaves discarded operations on its intermediate containers")
     for kind in ("mnt/int", "mnt/float", "met/int", "met/float"):
         if d["kinds"].get(kind, 0) == 0:
             probs.append(f"container kind {kind} never drawn")
